@@ -58,7 +58,7 @@ def match_close(s, i, op, cl):
 
 # ---------------------------------------------------------------------------------------------
 # function table of a translation unit: name -> list of bodies (name-based over-approximation)
-FUNC_RE = re.compile(r'(?:^|[;}\s])(?:[\w:<>\*&,~\s]+?[\s\*&])?((?:\w+::)*~?\w+)\s*\(([^;{}()]|\([^()]*\))*\)\s*(?:const\s*)?(?:override\s*)?(?::[^;{]*?)?\{', re.S)
+FUNC_RE = re.compile(r'(?:^|[;}\s])(?:[\w:<>\*&,~\s]+?[\s\*&])?((?:\w+(?:<[^<>;{}()]*>)?::)*~?\w+)\s*\(([^;{}()]|\([^()]*\))*\)\s*(?:const\s*)?(?:override\s*)?(?::[^;{]*?)?\{', re.S)
 KEYWORDS = {'if', 'for', 'while', 'switch', 'return', 'sizeof', 'catch', 'else', 'do', 'new', 'delete', 'case',
             'static_cast', 'dyn_cast', 'dyn_cast_or_null', 'cast', 'isa', 'const_cast', 'reinterpret_cast'}
 
@@ -86,6 +86,7 @@ def functions_of(src):
         except TranslatorError:
             continue
         cls = None
+        name = re.sub(r'<[^<>]*>', '', name)          # Class<T, U>::method -> Class::method
         if '::' in name:
             cls = name.split('::')[-2]
         else:
@@ -172,6 +173,15 @@ class TU:
                 self.by_base.setdefault(base, set()).add(cls)
         self._types = {}
         self.classes = {c for c, _ in self.defs if c}
+        # direct base classes declared in this translation unit (template arguments and namespaces dropped)
+        self.bases = {}
+        for m in re.finditer(r'\b(?:class|struct)\s+(\w+)\s*(?:final\s*)?:\s*([^{;]+)\{', self.text):
+            bl = []
+            for part in re.sub(r'<[^<>]*(?:<[^<>]*>[^<>]*)*>', '', m.group(2)).split(','):
+                ws = [w for w in re.findall(r'[\w:]+', part) if w not in ('public', 'private', 'protected', 'virtual')]
+                if ws:
+                    bl.append(ws[-1].split('::')[-1])
+            self.bases.setdefault(m.group(1), []).extend(bl)
         hm = '|'.join(sorted(helpers_mut)) or 'NOHELPER'
         self.sink = re.compile(r'(?:TheRewriter\s*(?:->|\.)\s*' + MUTATORS + r'\s*\()|(?:RewriteHelper\s*->\s*(?:' + hm + r')\s*\()')
         self.types = {}
@@ -188,6 +198,16 @@ class TU:
                 if any(self.text_may_rewrite(b, cls=k[0]) for b in bodies):
                     self.rw.add(k)
                     changed = True
+
+    def ancestors(self, c):
+        seen, todo = [], [c]
+        while todo:
+            x = todo.pop()
+            if x in seen:
+                continue
+            seen.append(x)
+            todo += self.bases.get(x, [])
+        return seen
 
     def class_rewrites(self, cls):
         return any(c == cls for c, _ in self.rw)
@@ -212,10 +232,11 @@ class TU:
             return []      # handled by the sink pattern
         rc = self.type_of(recv, scope)
         trav = meth.startswith('Traverse') or meth.startswith('Visit') or meth.startswith('WalkUp')
-        if rc in self.classes:
+        if rc in self.classes or any(a in self.classes for a in self.ancestors(rc) if rc):
+            anc = self.ancestors(rc)
             if trav:
-                return [k for k in self.defs if k[0] == rc]
-            return [(rc, meth)] if (rc, meth) in self.defs else []
+                return [k for k in self.defs if k[0] in anc]
+            return [(a, meth) for a in anc if (a, meth) in self.defs]
         if trav:
             if rc is not None:
                 return []          # a clang / llvm object, not one of ours
@@ -437,6 +458,20 @@ def conventions():
     c['clex_ok'] = int(re.search(r'#define\s+OK\s+(\d+)', dh).group(1))
     c['clex_stop'] = int(re.search(r'#define\s+STOP\s+(\d+)', dh).group(1))
     return c
+
+
+def skeleton_of(name, cls, mut):
+    """(number of opaque conditions, Coq term) of one registered transformation"""
+    cpp, body = htu_body(cls)
+    tu = TU(cpp, mut)
+    sk = Skel(tu, body, cls)
+    term = sk.stmts(body)
+    for cb in ('HandleTopLevelDecl', 'Initialize', 'HandleTagDeclDefinition', 'HandleInlineFunctionDefinition'):
+        bodies = tu.defs.get((cls, cb), [])
+        if bodies:
+            rw = any(tu.text_may_rewrite(b, cls=cls) for b in bodies)
+            term = f'(SSeq (SEffect {"true" if rw else "false"}) {term})'
+    return sk.nopaque, term
 
 
 def generate():
